@@ -155,6 +155,8 @@ def _model_case(case):
         case.check(abs(float(al.score) - s0) <= TOLERANCES["consistency"] and np.allclose(al.shift, 0, atol=1e-6),
                    f"{name}: zero-range alignment score != score", None, align=float(al.score), score=s0,
                    shift=al.shift)
+    if p["pair"] in ("displaced", "noisy") and p["mask"] == "none" and min(shape) >= 8:
+        _multi_landscape(case, rng, shape, tmpl, img, quat, pos, kw)
     # landscape maximum at the reported displacement (displaced copies only: unique interior peak)
     # (circular PCC landscapes cannot represent shifts beyond box/2: boxes below 2*(M+2)+2 are skipped)
     if p["pair"] == "displaced" and p["mask"] == "none" and min(shape) >= 6:
@@ -190,6 +192,35 @@ def _model_case(case):
             tol = 1.0 / up + 0.1
             case.check(dist <= tol, f"{name}: landscape maximum is not at the displacement alignment reports", None,
                        argmax=sh, align=al.shift, upsample=up, d=d, shape=shape, tilt=p["tilt"])
+
+
+def _multi_landscape(case, rng, shape, tmpl, img, quat, pos, kw):
+    """Every candidate row of a multi-template / rotation landscape equals the single-candidate landscape."""
+    from acryo.alignment import ZNCCAlignment, NCCAlignment
+
+    Model = (ZNCCAlignment, NCCAlignment)[int(rng.integers(0, 2))]
+    t2 = gen.render_box(shape, gen.make_blobs(rng, shape, sigma=(0.9, 1.4), r_sup=max(0.8, min(shape) / 2 - 4.5)))
+    M = (1.5, 1.5, 1.5)
+    for up in (1, int(rng.choice([2, 3]))):
+        multi = Model([tmpl, t2], None, **kw)
+        lm = np.asarray(multi.landscape(img, M, quat, pos, upsample=up))
+        ok = lm.ndim == 4 and lm.shape[0] == 2
+        case.check(ok, "multi-template landscape has the wrong rank", None, shape=lm.shape)
+        if not ok:
+            return
+        for j, t in enumerate((tmpl, t2)):
+            ls = np.asarray(Model(t, None, **kw).landscape(img, M, quat, pos, upsample=up))
+            e = float(np.abs(lm[j] - ls).max()) if lm[j].shape == ls.shape else np.inf
+            case.maxobs("max_multi_landscape_diff", e if np.isfinite(e) else 9.9)
+            case.check(e <= 2e-3, "candidate row of a multi-template landscape differs from the single-template "
+                       "landscape", None, upsample=up, candidate=j, diff=e, shape=shape)
+        rot = Rotation.from_rotvec([[0, 0, 0], [0.0, 0.0, 0.5]])
+        mr = Model(tmpl, None, rotations=rot, **kw)
+        lr = np.asarray(mr.landscape(img, M, quat, pos, upsample=up))
+        ls = np.asarray(Model(tmpl, None, **kw).landscape(img, M, quat, pos, upsample=up))
+        e = float(np.abs(lr[0] - ls).max()) if lr.ndim == 4 and lr[0].shape == ls.shape else np.inf
+        case.check(e <= 5e-3, "identity-rotation row of a rotation landscape differs from the plain landscape", None,
+                   upsample=up, diff=e, shape=shape)
 
 
 def _loader_case(case):
